@@ -40,6 +40,11 @@ class Run:
         self.harness_bin = self.driver_bin = None
         self.timings = {}
 
+    def use_area(self, a):
+        if getattr(self, "bins", None) and a in self.bins:
+            self.harness_bin, self.driver_bin = self.bins[a]
+            self.area = a
+
     def log(self, *a):
         print("[%s %6.1fs]" % (self.prop, time.time() - self.t0), *a, flush=True)
 
@@ -362,9 +367,17 @@ def execute(mod, tier, seed, replay=None, repo="/repo"):
             run.obligations.append(("theorem %s" % name, False, "development does not build"))
     run.log("coq: %d/%d obligations discharged" % (sum(1 for o in run.obligations if o[1]), len(run.obligations)))
 
-    # 2. runners
-    drv_ok = run.build_driver()
-    har_ok = run.build_harness()
+    # 2. runners (a property may span several areas: mod.AREAS + mod.area_of(case line))
+    areas = getattr(mod, "AREAS", [mod.AREA])
+    bins = {}
+    drv_ok = har_ok = True
+    for a in areas:
+        d_ok = run.build_driver(a)
+        h_ok = run.build_harness(a)
+        bins[a] = (run.harness_bin, run.driver_bin)
+        drv_ok, har_ok = drv_ok and d_ok, har_ok and h_ok
+    run.bins = bins
+    run.harness_bin, run.driver_bin = bins[areas[0]]
     if not har_ok:
         run.log("rust harness does not build against the tree under test")
 
@@ -382,9 +395,16 @@ def execute(mod, tier, seed, replay=None, repo="/repo"):
         seen.add(line)
         cases.append(("k%d" % len(cases), line, stream))
     run.log("cases: %d" % len(cases))
-    lines = ["%s %s" % (i, l) for i, l, _ in cases]
-    impl = run.harness(lines) if har_ok else {}
-    model = run.driver(lines) if drv_ok else {}
+    impl, model = {}, {}
+    for a in areas:
+        sel = [c for c in cases if len(areas) == 1 or mod.area_of(c[1]) == a]
+        lines = ["%s %s" % (i, l) for i, l, _ in sel]
+        run.use_area(a)
+        if har_ok:
+            impl.update(run.harness(lines))
+        if drv_ok:
+            model.update(run.driver(lines))
+    run.use_area(areas[0])
 
     # 4. compare + oracle
     disagreements, violations, known_seen = [], [], {}
